@@ -5,7 +5,7 @@ From Coq Require Import ExtrOcamlBasic List NArith ZArith String.
 Require Import Lib.GoStr Ssz.Sha256 Ssz.Ssz Ssz.Rotation.
 Require Import Fsm.EngineDefs Fsm.Types Fsm.Engine Fsm.Actions Fsm.Provider.
 Require Import Node.Types Node.Process.
-Require Import Board.File Node.Serial Crypto.Zr Air.Machine Node.ReinitHash Air.Terms Air.Lock Crypto.DealCheck Air.Reject.
+Require Import Board.File Board.Raw Node.Serial Crypto.Zr Air.Machine Node.ReinitHash Air.Terms Air.Lock Crypto.DealCheck Air.Reject.
 Require Gen.Skeletons.
 Extraction Language OCaml.
 Set Extraction Optimize.
@@ -20,4 +20,4 @@ Extraction "model.ml"
   result_of result_line coeffs_coincide group_coincides shares_coincide tick_waits_during_command gap_saves_without_password
   lagrange0_z share_z group_secret_z eval_poly
   pending_after a_labels b_labels in_lost_window
-  send_seq get_messages Gen.Skeletons.count_limit Gen.Skeletons.read_limit.
+  send_seq get_messages get_messages_raw Gen.Skeletons.count_limit Gen.Skeletons.read_limit.
